@@ -285,7 +285,7 @@ package gomavlib
 //@   ensures  [checksum-validates] err == nil ==> frame.SpecRawOK(fr) && frame.SpecChecksumOK(fr, frame.UfDialectExtra(n.dialectRW, M0.GetID()))
 //@   ensures  [signature-validates] err == nil && n.OutKey != nil && frame.SpecIsV2(fr) ==> frame.SpecSignatureOK(fr, n.OutKey)
 //@   ensures  [signed-flag-set-when-signing] err == nil && n.OutKey != nil && frame.SpecIsV2(fr) ==> frame.SpecSigFieldOK(fr) && frame.SpecIsSigned(fr)
-//@   modifies *fr
+//@   modifies *fr, ghost:log
 
 // ---------------------------------------------------------------- node configuration (C09, C06)
 
@@ -339,6 +339,7 @@ package gomavlib
 // ---------------------------------------------------------------- node write API (C11, C09, C08): one request per call
 
 //@ func (*Node).encodeFrame
+//@   ghostlog (*message.ReadWriter).Write+contract
 //@   let M0 = old(frame.SpecFrameMessage(fr))
 //@   requires n != nil && fr != nil && frame.SpecFrameMessage(fr) != nil
 //@   ensures  [raw-frame-untouched] frame.SpecIsRaw(M0) ==> err == nil && frame.SpecFrameMessage(fr) == M0
@@ -346,7 +347,11 @@ package gomavlib
 //@   ensures  [re-encoded-with-the-checksum-of-what-is-sent] !frame.SpecIsRaw(M0) && err == nil ==> frame.SpecRawOK(fr) &&
 //@              frame.SpecChecksumOK(fr, frame.UfDialectExtra(n.dialectRW, M0.GetID())) && frame.SpecFrameMessage(fr).GetID() == M0.GetID()
 //@   ensures  [failed-encoding-leaves-the-frame-alone] err != nil ==> frame.SpecFrameMessage(fr) == M0
-//@   modifies *frame.SpecMessageField(fr) when !frame.SpecIsRaw(old(frame.SpecFrameMessage(fr))),
+//@   ensures  [encoded-once-for-the-frames-own-version] !frame.SpecIsRaw(M0) && err == nil ==> logLen() == 1 &&
+//@              logCallee(0, "(*message.ReadWriter).Write") && logArgIsPtr(0, 0, n.dialectRW.GetMessage(M0.GetID())) &&
+//@              logArg(0, 1) == any(M0) && logArgBool(0, 2) == frame.SpecIsV2(fr) && frame.SpecFrameMessage(fr) == any(logRetAny(0, 0))
+//@   ensures  [raw-frames-are-not-encoded] frame.SpecIsRaw(M0) ==> logLen() == 0
+//@   modifies ghost:log, *frame.SpecMessageField(fr) when !frame.SpecIsRaw(old(frame.SpecFrameMessage(fr))),
 //@            *frame.SpecChecksumField(fr) when !frame.SpecIsRaw(old(frame.SpecFrameMessage(fr)))
 
 //@ func (*Node).encodeMessage returns (out, err)
